@@ -346,6 +346,27 @@ unsafe fn drop_cycle<T>(cycle: HashMap<Link<T>, usize>) {
     }
 }
 
+// Remove `this` from the link tables of every object it is linked with and
+// empty its own link table, so that no bookkeeping names `this` any more.
+//
+// This must happen before the `RcBox` of `this` is given up by a code path
+// that does not go through `Drop` (`Rc::try_unwrap`, `Rc::make_mut`).
+pub(crate) unsafe fn unlink<T>(this: &Rc<T>) {
+    let forward = Link::forward(this.ptr);
+    let backward = Link::backward(this.ptr);
+    let links = this.inner().links();
+    for (item, &strong) in links.borrow().iter() {
+        // `this` may have adopted itself; its own table is emptied below.
+        if ptr::eq(this.inner(), item.as_ptr()) {
+            continue;
+        }
+        let mut links = item.as_ref().links().borrow_mut();
+        links.remove(forward, strong);
+        links.remove(backward, strong);
+    }
+    links.borrow_mut().clear();
+}
+
 // Drop an `Rc` that is unreachable, but has adopted other `Rc`s.
 //
 // Unreachable `Rc`s have a strong count of zero, but because they have adopted
